@@ -19,7 +19,11 @@ RULE = (
     "distinct = program hash; non-trivial = at least one read under >= 1 override and at least 1 flush."
 )
 RULE += (
-    " One program in ten is an 'overlap' program (see C01); one in ten a 'revisit' program."
+    " One program in ten is an 'overlap' program (see C01); one in ten a 'revisit' program. One unit drives "
+    "tools.call_with_context(ctx, fn, ...) over five kinds of fn (generator, plain body, two async_proxy forms "
+    "that read when CALLED, bound method) x scoped value / attribute override x caller inside an override of "
+    "its own x nested call_with_context x position in the yield x fn failing: fn reads the inner value in all "
+    "of its code, its siblings and its caller do not."
 )
 ASSUMPTIONS = ["runaway-recursion aborts are outside this property's quantifier (see C08)"]
 UNIT_TIMEOUT = {"quick": 150, "thorough": 2400}
